@@ -1,3 +1,4 @@
+import BlockCiphers.Proofs.GenTables
 import BlockCiphers.Proofs.BlowfishSpec
 import BlockCiphers.Proofs.Blowfish
 import BlockCiphers.Proofs.Cast5Spec
@@ -13,6 +14,78 @@ and is proved by applying it.  ONLY property theorems and non-vacuity examples l
 XTEA: the Rust is the published algorithm transcribed (32 cycles as 4x8, key word by sum&3 / (sum>>11)&3); its model is Impl/Xtea.lean and
 the round-trip theorem is in C01; there is no separate specification text to equate it with.
 -/
+
+namespace BC.GenTables
+open BC.Gen
+theorem C09.blowfish_P_eq : blowfish_P.toList = nats32 BC.Blowfish.Consts.P :=
+  _root_.BC.GenTables.blowfish_P_eq
+end BC.GenTables
+
+namespace BC.GenTables
+open BC.Gen
+theorem C09.blowfish_S_eq : blowfish_S.toList = nats32 BC.Blowfish.Consts.S :=
+  _root_.BC.GenTables.blowfish_S_eq
+end BC.GenTables
+
+namespace BC.GenTables
+open BC.Gen
+theorem C09.cast5_S1_eq : cast5_S1.toList = nats32 BC.Cast5.Consts.S1 :=
+  _root_.BC.GenTables.cast5_S1_eq
+end BC.GenTables
+
+namespace BC.GenTables
+open BC.Gen
+theorem C09.cast5_S2_eq : cast5_S2.toList = nats32 BC.Cast5.Consts.S2 :=
+  _root_.BC.GenTables.cast5_S2_eq
+end BC.GenTables
+
+namespace BC.GenTables
+open BC.Gen
+theorem C09.cast5_S3_eq : cast5_S3.toList = nats32 BC.Cast5.Consts.S3 :=
+  _root_.BC.GenTables.cast5_S3_eq
+end BC.GenTables
+
+namespace BC.GenTables
+open BC.Gen
+theorem C09.cast5_S4_eq : cast5_S4.toList = nats32 BC.Cast5.Consts.S4 :=
+  _root_.BC.GenTables.cast5_S4_eq
+end BC.GenTables
+
+namespace BC.GenTables
+open BC.Gen
+theorem C09.cast5_S5_eq : cast5_S5.toList = nats32 BC.Cast5.Consts.S5 :=
+  _root_.BC.GenTables.cast5_S5_eq
+end BC.GenTables
+
+namespace BC.GenTables
+open BC.Gen
+theorem C09.cast5_S6_eq : cast5_S6.toList = nats32 BC.Cast5.Consts.S6 :=
+  _root_.BC.GenTables.cast5_S6_eq
+end BC.GenTables
+
+namespace BC.GenTables
+open BC.Gen
+theorem C09.cast5_S7_eq : cast5_S7.toList = nats32 BC.Cast5.Consts.S7 :=
+  _root_.BC.GenTables.cast5_S7_eq
+end BC.GenTables
+
+namespace BC.GenTables
+open BC.Gen
+theorem C09.cast5_S8_eq : cast5_S8.toList = nats32 BC.Cast5.Consts.S8 :=
+  _root_.BC.GenTables.cast5_S8_eq
+end BC.GenTables
+
+namespace BC.GenTables
+open BC.Gen
+theorem C09.rc2_PI_TABLE_eq : rc2_PI_TABLE.toList = nats8 BC.Rc2.PI_TABLE :=
+  _root_.BC.GenTables.rc2_PI_TABLE_eq
+end BC.GenTables
+
+namespace BC.GenTables
+open BC.Gen
+theorem C09.idea_MAXIM_eq : idea_MAXIM = BC.Idea.MAXIM.toNat :=
+  _root_.BC.GenTables.idea_MAXIM_eq
+end BC.GenTables
 
 namespace BC.Blowfish
 /-- C09: for every key length 4..56, `new` yields the published key schedule -/
